@@ -265,3 +265,28 @@ class Scheduler:
         me.sem.acquire()
         if self.abort:
             raise SchedAbort()
+
+
+def run_threads(traced, fns, schedule=None, first=0, max_steps=20000):
+    """Run plain callables as scheduler-controlled threads (no locks involved): returns (results, errors, steps, reason).
+    Used for code that is documented/assumed to be a pure function: results under any interleaving must equal the
+    sequential results."""
+    import gc
+    sched = Scheduler(traced, schedule=schedule, first=first, max_steps=max_steps)
+    results = [None] * len(fns)
+
+    def wrap(i, fn):
+        def body():
+            results[i] = fn()
+        return body
+    for i, fn in enumerate(fns):
+        sched.add(wrap(i, fn))
+    was = gc.isenabled()
+    gc.disable()
+    try:
+        sched.run()
+    finally:
+        if was:
+            gc.enable()
+    errors = [t.error for t in sched.threads]
+    return results, errors, sched.steps, sched.abort_reason
